@@ -9,13 +9,16 @@ From Coq Require Import List Bool NArith Arith.
 Import ListNotations.
 Open Scope N_scope.
 
-(* LSP ID = (system id, pseudonode id); the LSP number is always 0 in this model.
-   packet.LSPID.Compare orders lexicographically by system id, then pseudonode id. *)
-Record lspid := mkId { sys : N; pn : N }.
+(* LSP ID = (system id, pseudonode id, LSP number), the full 8 byte identifier.
+   id_eqb is Go's == on packet.LSPID (the LSDB map key, CSNP.ContainsLSPEntry): all three components.
+   id_leb is packet.LSPID.Compare(..) <= 0 (used by CSNP.RangeContainsLSPID): lexicographic on
+   system id, pseudonode id, LSP number. *)
+Record lspid := mkId { sys : N; pn : N; num : N }.
 
-Definition id_eqb (a b : lspid) : bool := (sys a =? sys b) && (pn a =? pn b).
+Definition id_eqb (a b : lspid) : bool := (sys a =? sys b) && (pn a =? pn b) && (num a =? num b).
 Definition id_leb (a b : lspid) : bool :=
-  (sys a <? sys b) || ((sys a =? sys b) && (pn a <=? pn b)).
+  (sys a <? sys b) ||
+  ((sys a =? sys b) && ((pn a <? pn b) || ((pn a =? pn b) && (num a <=? num b)))).
 
 Record iface := mkIf {
   passive : bool;      (* cfg.Passive *)
@@ -37,7 +40,8 @@ Record srv := mkS {
   pending : bool                   (* a request is queued in lsdb.refreshCh *)
 }.
 
-Definition local_id (s : srv) : lspid := mkId (own s) 0.
+(* the one LSP this system originates: pseudonode 0, LSP number 0 *)
+Definition local_id (s : srv) : lspid := mkId (own s) 0 0.
 
 (* ---- flag sets *)
 Fixpoint mem (i : nat) (l : list nat) : bool :=
@@ -185,6 +189,13 @@ Definition psnps_to_send (s : srv) : list (nat * list (lspid * N)) :=
        (filter (fun i => match nth_error (ifs s) i with Some f => negb (passive f) | None => false end)
                (all_ifs s))).
 
+(* sendCSNPss: on every interface with an (Up) neighbor one CSNP describing the whole database
+   (NewCSNPs; a single PDU covering the whole id range as long as the entries fit into one) *)
+Definition csnps_to_send (s : srv) : list (nat * list (lspid * N)) :=
+  map (fun i => (i, map (fun kv => (fst kv, seq (snd kv))) (db s)))
+    (filter (fun i => match nth_error (ifs s) i with Some f => negb (passive f) && has_nbr f | None => false end)
+            (all_ifs s)).
+
 Definition clear_all_ssn (s : srv) : srv :=
   with_db s (map (fun kv => (fst kv, mkE (seq (snd kv)) (life (snd kv)) (srm (snd kv)) [])) (db s)).
 
@@ -196,7 +207,8 @@ Inductive event :=
 | Service
 | Regen
 | SendLSPs
-| SendPSNPs.
+| SendPSNPs
+| SendCSNPs.
 
 Definition step (s : srv) (e : event) : srv :=
   match e with
@@ -208,6 +220,7 @@ Definition step (s : srv) (e : event) : srv :=
   | Regen => regen s
   | SendLSPs => s
   | SendPSNPs => clear_all_ssn s
+  | SendCSNPs => s
   end.
 
 Definition run (s : srv) (evs : list event) : srv := fold_left step evs s.
